@@ -11,7 +11,7 @@ from concurrent.futures import ProcessPoolExecutor
 import lib
 from rstparse import Page
 
-SUBST = {"PFX": "pfx", "DIRNAME": "proj", "MODNAME": "my.mod-ule", "MODBODY": "module body text", "CMDDOC": "command doc text"}
+SUBST = {"PFX": "pfx", "DIRNAME": "proj", "MODNAME": "my/mod-ule.x\u5de5\u5177e\u0301", "MODBODY": "module body text", "CMDDOC": "command doc text"}
 ALL_FILES = [["x.cmake"], ["a", "x.cmake"], ["a", "b", "Y.CMAKE"], ["a", "b", "z.cmake"], ["a", "d.e-f.cmake"], ["x.cmake.cmake"]]
 LINKS = {("a", "lnk.cmake"): "../x.cmake"}
 
@@ -205,7 +205,8 @@ def _init(src):
 
 def replay(run, behs, seed, limit=None):
     if limit and len(behs) > limit:
-        behs = random.Random(seed).sample(behs, limit)
+        # every pair of descriptor values is covered (file x prefix source, spelling x earlier input, ...), then random fill
+        behs = lib.covering_sample(behs, lambda b: dict({k: v for k, v in b["run"].items() if k != "file"}, file="/".join(b["run"]["file"]["rel"])), limit, seed)
         run.exhaustive = False
     base = tempfile.mkdtemp(prefix="verif_c12_", dir="/dev/shm" if os.path.isdir("/dev/shm") else None)
     try:
@@ -255,5 +256,24 @@ def case_collision(run):
             run.violation({"files": ["tool.cmake", "tool.CMAKE", "other.cmake"], "features": {"case_collision": True}},
                           "three pages with pairwise different titles and module names", {"exc": exc, "titles": names, "modules": mods},
                           "different files of one run do not get different titles / module names")
+        # a file in a sub-directory next to a file whose name spells that path with the separator: a/x.cmake, a.x.cmake
+        proj2 = os.path.join(base, "proj2")
+        os.makedirs(os.path.join(proj2, "a"))
+        for f in ("a/x.cmake", "a.x.cmake", "a-x.cmake"):
+            with open(os.path.join(proj2, f), "w") as fh:
+                fh.write("function(f_%s)\nendfunction()\n" % re.sub(r"[^a-z]", "_", f))
+        for sep in (".", "-"):
+            import yaml
+            sfile = os.path.join(base, "sep.yaml")
+            with open(sfile, "w") as fh:
+                yaml.safe_dump({"rst": {"module_path_separator": sep}, "logging": {"version": 1}}, fh)
+            exc, out = run_main(["-s", sfile, "-r", "proj2"], base, home)
+            run.count("separator-collision" + sep)
+            names = [t[1] for t in re.findall(r"^\n?(#+)\n(.+)\n\1$", out, re.M)]
+            mods = re.findall(r"^\.\. module:: (.*)$", out, re.M)
+            if exc or len(names) != 3 or len(set(names)) != 3 or len(set(mods)) != 3:
+                run.violation({"files": ["a/x.cmake", "a.x.cmake", "a-x.cmake"], "separator": sep, "features": {"separator_collision": True}},
+                              "three pages with pairwise different titles and module names", {"exc": exc, "titles": names, "modules": mods},
+                              "different files of one run do not get different titles / module names")
     finally:
         subprocess.run(["rm", "-rf", base])
